@@ -3,10 +3,13 @@
     all 4-aligned offsets) and ARM-Thumb (all data, all 2-aligned offsets)
     round trips; IA-64 (all data, all 16-aligned offsets, ANY branch table -
     in particular the one regenerated from ia64.c); length preservation.
-    NOT proved (explored and tied by correspondence only; see evidence
-    assumptions): round trips of x86 and RISC-V; the simple_coder
+    x86 (`x86_decode_encode`: one call from the fresh filter state, data
+    shorter than 4 GiB, any start offset; the prev_mask / inner-loop design
+    argument made formal in BcjProofs5.v).  NOT proved (explored and tied
+    by correspondence only; see evidence assumptions): the RISC-V round
+    trip; x86 across several calls with carried state; the simple_coder
     buffering protocol. *)
-From XZ Require Import Base Bcj BcjInst BcjProofs BcjProofs2 BcjProofs3 BcjProofs4.
+From XZ Require Import Base Bcj BcjInst BcjProofs BcjProofs2 BcjProofs3 BcjProofs4 BcjProofs5.
 Local Open Scope N_scope.
 
 Theorem delta_decode_encode : forall dist l, bytes_ok l -> delta_decode dist (delta_encode dist l) = l.
@@ -92,3 +95,19 @@ Example ia64_changes_something :
   aligned16 (w32 32) /\ fst (ia64_code_g true 32 [16; 0; 0; 0; 0; 0; 0; 0; 0; 0; 0; 0; 0; 0; 0; 80])
                         <> [16; 0; 0; 0; 0; 0; 0; 0; 0; 0; 0; 0; 0; 0; 0; 80].
 Proof. split; [unfold aligned16, w32; lia|vm_compute; discriminate]. Qed.
+
+(** x86: E8/E9 candidates, the mask of recent unconverted candidates, the correction loop that keeps the byte an earlier
+    candidate looked at away from 00/FF - decoding undoes encoding *)
+Theorem x86_decode_encode : forall start pp l, bytes_ok l -> pp < 4294967296 -> 5 + lenN l < 4294967296 ->
+  xo (x86_code_g false 0 pp start (xo (x86_code_g true 0 pp start l))) = l.
+Proof. exact x86_roundtrip. Qed.
+Print Assumptions x86_decode_encode.
+
+Theorem x86_preserves_length : forall enc start pp l, bytes_ok l -> pp < 4294967296 -> 5 + lenN l < 4294967296 ->
+  length (xo (x86_code_g enc 0 pp start l)) = length l.
+Proof. exact x86_length. Qed.
+Print Assumptions x86_preserves_length.
+
+Example x86_changes_something :
+  xo (x86_code_g true 0 4294967291 0 [232; 1; 2; 3; 0; 144; 144; 144; 144; 144]) <> [232; 1; 2; 3; 0; 144; 144; 144; 144; 144].
+Proof. vm_compute. discriminate. Qed.
